@@ -46,6 +46,7 @@ func main() {
 		exactCases(o)
 		anchors := buildAnchors(o)
 		writeAnchors(o, anchors)
+		writeJSON(filepath.Join(o.Out, "domain.json"), domainTable)
 		runSweep(o)
 	}
 }
